@@ -63,6 +63,16 @@ TWINS = [('TwinTI', TWIN_TI), ('TwinTS', TWIN_TS), ('List[TwinTS]', typing.List[
          ('TwinNS', TWIN_NS), ('TwinNI', TWIN_NI), ('List[TwinNS]', typing.List[TWIN_NS]), ('List[TwinNI]', typing.List[TWIN_NI])]
 
 
+# fixed-length tuples of every small arity, the empty one included, in both spellings and inside a union: arity is
+# part of the meaning, and the empty tuple is where "all children ..." shortcuts turn vacuous
+ARITIES = [
+    ('Tuple[()]', typing.Tuple[()]), ('tuple[()]', tuple[()]), ('Tuple[int]', typing.Tuple[int]), ('tuple[int]', tuple[int]),
+    ('Tuple[int,int]', typing.Tuple[int, int]), ('Tuple[bytes]', typing.Tuple[bytes]), ('Tuple[int,...]', typing.Tuple[int, ...]),
+    ('Union[Tuple[int],str]', typing.Union[typing.Tuple[int], str]), ('Union[Tuple[()],str]', typing.Union[typing.Tuple[()], str]),
+    ('Tuple[Tuple[()]]', typing.Tuple[typing.Tuple[()]]),
+]
+
+
 def hint_pool(tier, seed):
     hs = grammar.hints_depth1(leaves=grammar.LEAVES, core=grammar.CORE_LEAVES[:4])
     out = []
@@ -77,7 +87,7 @@ def hint_pool(tier, seed):
             if '[' not in name or any(name.endswith(f'[{l}]') for l in ('int', 'str', 'UA', 'Lit1', 'bool', 'object', 'TU', 'TB')) \
                     or (',' in name and i % 5 == 0):
                 keep.append((name, h))
-        out = keep[:230] + grammar.annotated_hints(1, limit=24)[:24] + [h for h in grammar.special_hints() if 'Any' not in h[0] and 'LiteralString' not in h[0] and 'Unpack' not in h[0] and '*tuple' not in h[0] and 'ARec' not in h[0]][::4] + TWINS + CALLABLES + DEEP_UNIONS + ANNOTATED2
+        out = keep[:230] + grammar.annotated_hints(1, limit=24)[:24] + [h for h in grammar.special_hints() if 'Any' not in h[0] and 'LiteralString' not in h[0] and 'Unpack' not in h[0] and '*tuple' not in h[0] and 'ARec' not in h[0]][::4] + TWINS + CALLABLES + DEEP_UNIONS + ANNOTATED2 + ARITIES
     else:
         quick = hint_pool('quick', seed)
         out = quick + out[:700] + grammar.special_hints() + grammar.hints_depth2_curated()[::4] + [
